@@ -137,7 +137,7 @@ def expected_matrices(g, flux, is_dir, is_neu):
     return U, D, N, inflow
 
 
-def check_selection(pp, spec, flux, layout, k):
+def check_selection(pp, spec, flux, layout, k, data=None):
     g = build_grid(pp, spec)
     nf, nc = g.num_faces, g.num_cells
     flux = np.asarray(flux, dtype=float)
@@ -151,12 +151,13 @@ def check_selection(pp, spec, flux, layout, k):
     if k is not None:
         params["num_components"] = k
     kk = 1 if k is None else k
-    data = pp.initialize_data({}, KW, params)
     discr = pp.Upwind(KW)
-    try:
-        discr.discretize(g, data)
-    except Exception as e:
-        return [(O_RUN, f"{type(e).__name__}: {e}")]
+    if data is None:
+        data = pp.initialize_data({}, KW, params)
+        try:
+            discr.discretize(g, data)
+        except Exception as e:
+            return [(O_RUN, f"{type(e).__name__}: {e}")]
     M = data[pp.DISCRETIZATION_MATRICES][KW]
     U = M[discr.upwind_matrix_key].toarray()
     D = M[discr.bound_transport_dir_matrix_key].toarray()
@@ -203,8 +204,32 @@ def check_selection(pp, spec, flux, layout, k):
     return bad
 
 
-def _flux_from_signs(signs, rng):
+def _flux_from_signs(signs, rng, wide=False):
+    if wide:
+        # magnitudes over 30 orders: the upstream cell depends on the SIGN of the flux only, however small it is relative to others
+        return [s * float(f"{rng.uniform(1, 9):.3f}e{rng.choice((-18, -13, -6, 0, 5, 12))}") for s in signs]
     return [s * round(rng.uniform(0.1, 3.0), 3) for s in signs]
+
+
+def check_rediscretisation(pp, spec, flux, layout1, k1, layout2, k2):
+    """discretize twice on the SAME data dictionary with the same flux but another boundary typing / number of components: the stored
+    matrices must be those of the second call (same clauses S1-S5 as for a fresh discretisation)"""
+    g = build_grid(pp, spec)
+    bf = g.get_all_boundary_faces()
+    mk = lambda lay: pp.BoundaryCondition(g, bf, ["dir" if c == "d" else "neu" for c in lay])  # noqa: E731
+    data = pp.initialize_data({}, KW, {"bc": mk(layout1), "darcy_flux": np.asarray(flux, dtype=float), "num_components": k1})
+    discr = pp.Upwind(KW)
+    fresh = pp.initialize_data({}, KW, {"bc": mk(layout2), "darcy_flux": np.asarray(flux, dtype=float), "num_components": k2})
+    try:
+        discr.discretize(g, data)
+        data[pp.PARAMETERS][KW]["bc"] = mk(layout2)
+        data[pp.PARAMETERS][KW]["num_components"] = k2
+        discr.discretize(g, data)
+        pp.Upwind(KW).discretize(g, fresh)
+    except Exception as e:
+        return [(O_RUN, f"{type(e).__name__}: {e}")]
+    bad = check_selection(pp, spec, flux, layout2, k2, data=data)
+    return [(ob, "after re-discretisation with changed boundary types / components: " + d) for ob, d in bad]
 
 
 def selection_cases(pp, rng, quick):
@@ -236,7 +261,7 @@ def selection_cases(pp, rng, quick):
             pz = (0.0, 0.15, 0.5)[i % 3]  # probability of a zero flux
             signs = [0 if rng.random() < pz else rng.choice((-1, 1)) for _ in range(g.num_faces)]
             layout = ("d" * nb, "n" * nb)[i % 2] if i % 5 == 0 else "".join(rng.choice("dn") for _ in range(nb))
-            yield spec, _flux_from_signs(signs, rng), layout, 1 + i % 3, "sample"
+            yield spec, _flux_from_signs(signs, rng, wide=(i % 4 == 3)), layout, 1 + i % 3, "sample"
 
 
 # ----------------------------------------------------------------------------- transport clause
@@ -364,6 +389,14 @@ def sweep(rep, pp):
                 zero = "zero-flux " if 0 in signs else ""
                 rep.violation(ob, f"{_gname(spec)} {zero}k={k or 'default'}", detail=detail, confirmed=True,
                               inputs={"clause": "selection", "grid": spec, "flux": flux, "layout": layout, "k": k})
+            if fam == "sample" and hash(key) % 4 == 0:
+                # the same data dictionary re-discretised after the boundary typing (and the number of components) changed, flux unchanged
+                layout2 = "".join(("n" if c == "d" else "d") if rng.random() < 0.5 else c for c in layout)
+                k2 = 1 + ((k or 1) % 3)
+                sw.case(key + ("re-discretised", layout2, k2), nontrivial=True)
+                for ob, detail in check_rediscretisation(pp, spec, flux, layout, k or 1, layout2, k2):
+                    rep.violation(ob, f"{_gname(spec)} re-discretisation", detail=detail, confirmed=True,
+                                  inputs={"clause": "rediscretisation", "grid": spec, "flux": flux, "layout": layout, "k": k or 1, "layout2": layout2, "k2": k2})
     with rep.sweep(
         "explicit transport under CFL",
         rule="grids {Cartesian 2-D/3-D, structured triangle/tetrahedral, node-perturbed Cartesian} x seeded random elements of the null space "
@@ -515,7 +548,9 @@ def replay(data):
     import porepy as pp
 
     inp = data["inputs"]
-    if inp["clause"] == "selection":
+    if inp["clause"] == "rediscretisation":
+        bad = check_rediscretisation(pp, inp["grid"], inp["flux"], inp["layout"], inp["k"], inp["layout2"], inp["k2"])
+    elif inp["clause"] == "selection":
         bad = check_selection(pp, inp["grid"], inp["flux"], inp["layout"], inp["k"])
     else:
         bad = check_transport(pp, inp["grid"], inp["flux"], inp["layout"], inp["u0"], inp["dir_values"], inp["nsteps"], inp["cfl_fraction"])
